@@ -368,7 +368,7 @@ func (p *parser) parseIPv6(u *Url, input *inputString) (string, error) {
 }
 
 func (p *parser) parseOpaqueHost(u *Url, input string) (string, error) {
-	output := ""
+	var output strings.Builder
 	for i, c := range input {
 		if ForbiddenHostCodePoint.Test(uint(c)) {
 			if p.opts.laxHostParsing {
@@ -393,9 +393,9 @@ func (p *parser) parseOpaqueHost(u *Url, input string) (string, error) {
 			}
 		}
 
-		output += p.percentEncodeRune(c, C0PercentEncodeSet)
+		output.WriteString(p.percentEncodeRune(c, C0PercentEncodeSet))
 	}
-	return output, nil
+	return output.String(), nil
 }
 
 type IPv6Addr [8]uint16
